@@ -34,7 +34,7 @@ MAP_MUTS = ["setitem", "delitem", "clear", "update", "inner_setitem", "inner_cle
 def floors(ctx):
     q = ctx.tier == "quick"
     f = {"evaluations": 5000 if q else 50000, "mutation_took_effect_on_copy": 1000, "protected_by_immutability": 500,
-         "input_probes": 300}
+         "input_probes": 300, "input_probes_with_unhashable_members": 50}
     for acc in ("links", "vertices", "u_vertices", "universes", "neighbors", "find_links", "bft", "dft_recursive",
                 "dft_iterative", "ibft", "edge_whitelist"):
         for mode in ("off", "cold", "warm", "off_then_on"):
@@ -248,8 +248,12 @@ def probe_returned(ctx, pool, rng, history):
 
 def probe_inputs(ctx, rng):
     """Containers passed to constructors / builders are copied."""
-    def fresh():
-        vs = [zoo.VERTEX_CLASSES[rng.choice(["Vertex", "VSub", "FalsyVertex"])](attributes={"idx": i}) for i in range(4)]
+    def fresh(allow_unhashable=True):
+        # (one in four members cannot be hashed: containers of such vertices take other code paths)
+        vs = [(zoo.UnhashableVertex if allow_unhashable and rng.random() < 0.25 else
+               zoo.VERTEX_CLASSES[rng.choice(["Vertex", "VSub", "FalsyVertex"])])(attributes={"idx": i}) for i in range(4)]
+        if any(isinstance(v, zoo.UnhashableVertex) for v in vs):
+            ctx.count("input_probes_with_unhashable_members")
         us = [Universe(), Universe()]
         ls = [DirectedEdge(vs[0], vs[1]), UnDirectedEdge(vs[1], vs[2])]
         return vs, us, ls
@@ -377,7 +381,7 @@ def probe_inputs(ctx, rng):
 
     # load_adj_dict
     def b_adjdict():
-        vs, us, ls = fresh()
+        vs, us, ls = fresh(False)
         row0 = [vs[1], vs[2]]
         adj = {vs[0]: row0, vs[1]: [vs[2]], vs[3]: []}
         return (adjlist.load_adj_dict(adj, DirectedEdge), vs), [("adjdict", adj), ("row", row0)]
@@ -390,7 +394,7 @@ def probe_inputs(ctx, rng):
 
     # load_adj_matrix
     def b_adjm():
-        vs, us, ls = fresh()
+        vs, us, ls = fresh(False)
         side = [vs[0], vs[1], vs[2]]
         row0 = [0, 1, 1]
         m = [row0, [0, 0, 1], [1, 0, 0]]
